@@ -606,6 +606,10 @@ def _strip(side):
             return ABag(0, v.hi, v.cs)
         if isinstance(v, Unknown):
             return v
+        if isinstance(v, SStr) and v.clean and chars is None:
+            return v   # nothing to strip: the clean universe has no whitespace
+        if isinstance(v, (SStr, Sym)):
+            return Sym("method", v, side, tuple(args))
         raise _CE(side)
     return f
 
@@ -996,9 +1000,13 @@ def _mk_pattern_match(mode):
     return f
 
 
-def _do_sub(it, rx, repl, s, node):
+def _do_sub(it, rx, repl, s, node, count=0):
     from . import ops
     s = ops.strval(s)
+    if count != 0:
+        if isinstance(s, str) and isinstance(repl, str) and isinstance(count, int):
+            return _re.sub(rx.pattern, repl, s, count=count, flags=rx.flags)
+        return Sym("resub_count", rx, ops.freeze(repl) if not isinstance(repl, (FuncRef, Bound)) else "callback", s, ops.freeze(count))
     if isinstance(s, str) and isinstance(repl, str):
         return _re.sub(rx.pattern, repl, s, flags=rx.flags)
     if isinstance(s, str) and isinstance(repl, (FuncRef, Bound)):
@@ -1025,11 +1033,13 @@ def _do_sub(it, rx, repl, s, node):
 
 def _re_sub(it, args, kwargs, node):
     flags = _flags_of(kwargs.get("flags", args[4] if len(args) > 4 else 0))
-    return _do_sub(it, _rx(args[0], flags), args[1], args[2], node)
+    count = kwargs.get("count", args[3] if len(args) > 3 else 0)
+    return _do_sub(it, _rx(args[0], flags), args[1], args[2], node, count)
 
 
 def _p_sub(it, recv, args, kwargs, node):
-    return _do_sub(it, recv, args[0], args[1], node)
+    count = kwargs.get("count", args[2] if len(args) > 2 else 0)
+    return _do_sub(it, recv, args[0], args[1], node, count)
 
 
 def _m_group(it, recv, args, kwargs, node):
@@ -1172,7 +1182,49 @@ def _copy(it, args, kwargs, node):
 
 
 def _defaultdict(it, args, kwargs, node):
-    raise _CE("defaultdict")
+    from . import ops
+    if len(args) != 1:
+        raise _CE("defaultdict without factory")
+    return ops.DefaultDict(args[0])
+
+
+def _list_factory(it, args, kwargs, node):
+    return _b_list(it, args, kwargs, node)
+
+
+def _files(it, args, kwargs, node):
+    return ("path", args[0])
+
+
+def _json_load(it, args, kwargs, node):
+    from . import ops
+    import copy as _copy_
+    f = args[0]
+    vfs = getattr(it, "vfs", None)
+    if not isinstance(f, ops.FileVal) or vfs is None:
+        raise _CE("json.load outside the virtual file system")
+    d, name = f.path[:-1], f.path[-1]
+    for n, content in vfs.get(d, []):
+        if n == name:
+            return _copy_.deepcopy(content)
+    it.may_raise("FileNotFoundError", node, str(f.path), certain=True)
+
+
+def _path_glob(it, recv, args, kwargs, node):
+    vfs = getattr(it, "vfs", None)
+    if vfs is None:
+        raise _CE("glob outside the virtual file system")
+    import fnmatch
+    names = [n for n, _ in vfs.get(recv, []) if fnmatch.fnmatch(n, args[0])]
+    it.event("glob", path=recv, node=node)
+    # a directory listing has no guaranteed order: hand the names out in an adversarial (non-sorted) order
+    order = getattr(it, "glob_order", None) or (lambda xs: sorted(xs, reverse=True))
+    return [recv + (n,) for n in order(names)]
+
+
+def _path_open(it, recv, args, kwargs, node):
+    from . import ops
+    return ops.FileVal(recv)
 
 
 _EXT = {
@@ -1182,4 +1234,8 @@ _EXT = {
     "operator.itemgetter": _itemgetter, "typing.cast": _cast, "warnings.warn": _warn,
     "pycountry.countries.get": _pycountry_get, "collections.defaultdict": _defaultdict,
     "copy.deepcopy": _deepcopy, "copy.copy": _copy,
+    "importlib.resources.files": _files, "importlib_resources.files": _files, "json.load": _json_load,
 }
+
+
+_PATHM.update({"glob": _path_glob, "open": _path_open})
